@@ -76,7 +76,7 @@ SPECS = {
   "bounds": {"misuse_menu": 48, "file": "harness/world.hpp", "indices/offsets": "any 64-bit value", "positions": "any double"},
   "outside": ["'all finite programs': only the bounded programs of the harnesses; functions no harness reaches are not covered (functions_encoded lists what was)", "libhdf5 internals (modelled)", "allocation failure", "threads"],
   "assumptions": ["libhdf5 replaced by h5model", "operator new never fails"],
-  "harnesses": [{"file": "C16_misuse.cpp", "entries": [{"entry": "vh_c16_misuse", "label": "vh_c16_misuse.op%d" % o, "fix": {"op": o}} for o in range(55)]
+  "harnesses": [{"file": "C16_misuse.cpp", "entries": [{"entry": "vh_c16_misuse", "label": "vh_c16_misuse.op%d" % o, "fix": {"op": o}} for o in range(66)]
        + [{"entry": "vh_c16_positions", "label": "vh_c16_positions.d%d" % d, "fix": {"dim": d}} for d in range(4)]}]},
  "C01": {
   "explanation": "Full stack on the HDF5 model for 10 numeric element types plus Bool and String: bounded histories of hyperslab writes (offset/count inside, touching and crossing the edge), appends along each axis, extent changes (grow/shrink) and sub-region reads with symbolic element values, compared with a dense reference array after every step and after reopen; reads as other numeric types; calibration polynomial/origin in the exact regime (integer-valued doubles) with raw reads unaffected; kernel checks of applyPolynomial (arbitrary doubles, order-independent facts) and guessChunking.",
@@ -96,15 +96,22 @@ SPECS = {
   "bounds": {"quick": {"history_steps": 2, "rows": "0..3", "columns": 3, "string_bytes": "0..2"}, "thorough": {"history_steps": 3}},
   "outside": ["schemas with more than 4 columns", "more than 3 rows", "long strings"],
   "assumptions": ["libhdf5 replaced by h5model (compound member conversion by name; unwritten vlen strings read as NULL pointers, as libhdf5 does)"],
-  "harnesses": [{"file": "C15_frames.cpp", "defines": {"quick": ["-DVH_STEPS=2"], "thorough": ["-DVH_STEPS=3"]},
-     "entries": [{"entry": "vh_c15_frame"}, {"entry": "vh_c15_types"}]}]},
+  "harnesses": [{"file": "C15_frames.cpp", "defines": {"quick": ["-DVH_STEPS=2"], "thorough": ["-DVH_STEPS=3"]}, "tiers": ["quick"],
+     "entries": [{"entry": "vh_c15_frame"}, {"entry": "vh_c15_types"}]},
+     {"file": "C15_frames.cpp", "defines": {"quick": ["-DVH_STEPS=2"], "thorough": ["-DVH_STEPS=3"]}, "tiers": ["thorough"],       # 3 steps: sliced by the first two operations
+     "entries": [{"entry": "vh_c15_frame", "label": "vh_c15_frame.o%d.o%d" % (a, b), "fix": {"op#0": a, "op#1": b}} for a in range(5) for b in range(5)] + [{"entry": "vh_c15_types"}]}]},
  "C14": {
   "explanation": "Full stack on the HDF5 model: for each of the 7 value types a property is driven through a bounded history of assign (length 0..3, symbolic payloads over the full value range incl. NaN/inf/extremes, strings of 0..2 symbolic bytes) / clear / unit / uncertainty / wrong-type assignment, and values(), valueCount(), dataType(), unit(), uncertainty() are compared with the last assignment after every step and after reopen.",
   "bounds": {"quick": {"history_steps": 2, "vector_length": "0..3", "string_bytes": "0..2"}, "thorough": {"history_steps": 3, "vector_length": "0..4"}},
   "outside": ["vector lengths above the bound (the statement's 0..64)", "long strings", "old-style (< 1.1.1) compound values"],
   "assumptions": ["libhdf5 replaced by h5model (same-type element copy, vlen strings)"],
-  "harnesses": [{"file": "C14_props.cpp", "defines": {"quick": ["-DVH_STEPS=2", "-DVH_MAXLEN=3"], "thorough": ["-DVH_STEPS=3", "-DVH_MAXLEN=4"]},
-     "entries": [{"entry": "vh_c14_values", "label": "vh_c14_values.t%d" % t, "fix": {"type": t}} for t in range(7)] + [{"entry": "vh_c14_create", "label": "vh_c14_create.t%d" % t, "fix": {"type": t}} for t in range(7)]}]},
+  "harnesses": [{"file": "C14_props.cpp", "defines": {"quick": ["-DVH_STEPS=2", "-DVH_MAXLEN=3"], "thorough": ["-DVH_STEPS=3", "-DVH_MAXLEN=4"]}, "tiers": ["quick"],
+     "entries": [{"entry": "vh_c14_values", "label": "vh_c14_values.t%d" % t, "fix": {"type": t}} for t in range(7)] + [{"entry": "vh_c14_create", "label": "vh_c14_create.t%d" % t, "fix": {"type": t}} for t in range(7)]},
+     # thorough: 3 steps, length <= 4; the two types with symbolic forks per value (double: NaN / non-NaN, string: length) are sliced by their first two operations
+     {"file": "C14_props.cpp", "defines": {"quick": ["-DVH_STEPS=2", "-DVH_MAXLEN=3"], "thorough": ["-DVH_STEPS=3", "-DVH_MAXLEN=4"]}, "tiers": ["thorough"],
+     "entries": [{"entry": "vh_c14_values", "label": "vh_c14_values.t%d" % t, "fix": {"type": t}} for t in range(1, 6)]
+              + [{"entry": "vh_c14_values", "label": "vh_c14_values.t%d.o%d.o%d" % (t, a, b), "fix": {"type": t, "op#0": a, "op#1": b}} for t in (0, 6) for a in range(5) for b in range(5)]
+              + [{"entry": "vh_c14_create", "label": "vh_c14_create.t%d" % t, "fix": {"type": t}} for t in range(7)]}]},
  "C13": {
   "explanation": "Full stack on the HDF5 model: bounded append histories over the five descriptor kinds with symbolic interval, offset and tick values (all non-NaN doubles), read back through getDimension/dimensions()/as*Dimension after every step and after reopen; setters on existing descriptors; alias dimension mirrored in both directions with symbolic data.",
   "bounds": {"quick": {"append_steps": 2, "ticks": "0..3 symbolic", "labels": "0..2", "data_frame_column": "0..4 of 3"}, "thorough": {"append_steps": 3}},
@@ -181,7 +188,7 @@ SPECS = {
   "assumptions": ["libhdf5 replaced by h5model (validated against nix's 62 test executables)", "exception message formatting (iostream) inert"],
   "harnesses": [{"file": "C10_version.cpp", "entries": [{"entry": "vh_c10_order"}, {"entry": "vh_c10_index"}, {"entry": "vh_c10_gate"}]}]},
  "C07": {
-  "explanation": "Kernel tier: the four index kernels of src/Dimensions.cpp are called directly with symbolic position, tick values, counts and match rule; the oracle is the documented rule stated against the axis (neighbours of the answer).",
+  "explanation": "Kernel tier: the four index kernels of src/Dimensions.cpp are called directly with symbolic position, tick values, counts and match rule; the oracle is the documented rule stated against the axis (neighbours of the answer). S tier (C07_overloads.cpp): the indexOf overload family (scalar, pair, explicit-parameter, vector, deprecated) of the four dimension classes on a real file with symbolic start/end, over contract kernels: pair rule, validity rule and element-wise agreement of the overloads.",
   "bounds": {"quick": {"range_ticks": "0..3 symbolic strictly ascending doubles, any non-NaN position", "set_labels": "0..3", "df_rows": "1..2^40 symbolic", "positions_set_df": "|p| < 1e15",
                        "sampled": "(interval,offset)=(1,0); index <= 255; position anywhere in [x_0-4*interval, x_255]"},
              "thorough": {"range_ticks": "0..4", "set_labels": "0..4", "sampled": "see entries"}},
@@ -192,6 +199,8 @@ SPECS = {
       "entries": [{"entry": "vh_c07_range"}, {"entry": "vh_c07_range_nan"}]
                  + [{"entry": e, "label": "%s.m%d" % (e, m), "fix": {"match": m}} for e in ("vh_c07_set", "vh_c07_df", "vh_c07_sampled_any") for m in range(5)]
                  + [{"entry": "vh_c07_sampled_roundtrip"}]},
+     {"file": "C07_overloads.cpp", "defines": {"quick": ["-DVH_MAXEXT=6"], "thorough": ["-DVH_MAXEXT=10"]},
+      "entries": [{"entry": "vh_c07_overloads", "label": "vh_c07_overloads.k%d.m%d" % (k, m), "fix": {"kind": k, "mode": m}} for k in range(4) for m in range(2)]},
   ] + [
      {"file": "C07_index.cpp", "defines": {"quick": ["-DVH_RANGE_MAXTICKS=3", "-DVH_SET_MAXLABELS=3", "-DVH_IMAX=%d" % qmax, "-DVH_INTERVAL=%s" % iv, "-DVH_OFFSET=%s" % off],
                                            "thorough": ["-DVH_RANGE_MAXTICKS=3", "-DVH_SET_MAXLABELS=3", "-DVH_IMAX=%d" % tmax, "-DVH_INTERVAL=%s" % iv, "-DVH_OFFSET=%s" % off]},
